@@ -256,10 +256,10 @@ var profiles = map[string]profile{
 	"C19": {name: "C19", minOps: 4, maxOps: 14, wRecv: 72, wMsg: 14, wDeposit: 4, wQuery: 10, pOrbiter: 92, pFee: 65, pBadPayload: 22,
 		pFault: 0, pLie: 0, pWrongSign: 10, pPass: 10, pHuge: 4, pBadDenom: 6, routes: cleanRoutes, msgKinds: allMsgKinds, mask: []int{0, 4}, pPlanned: 50, pInitLimit: 30},
 	// C16 (end-to-end part): orbiter packets carrying every kind of token (native, vouchers of this and other channels, multi-hop, ibc/ hashes, illegal)
-	"C16": {name: "C16", minOps: 1, maxOps: 4, wRecv: 95, wMsg: 0, wDeposit: 5, wQuery: 0, pOrbiter: 96, pFee: 30, pBadPayload: 4,
-		pFault: 0, pLie: 0, pWrongSign: 0, pPass: 0, pHuge: 4, pBadDenom: 55, routes: cleanRoutes, msgKinds: []string{"UpdateParams"}, mask: []int{0, 1, 2, 4}},
+	"C16": {name: "C16", minOps: 1, maxOps: 5, wRecv: 80, wMsg: 0, wDeposit: 20, wQuery: 0, pOrbiter: 96, pFee: 30, pBadPayload: 4,
+		pFault: 0, pLie: 0, pWrongSign: 0, pPass: 0, pHuge: 30, pBadDenom: 45, routes: cleanRoutes, msgKinds: []string{"UpdateParams"}, mask: []int{0, 1, 2, 4}},
 	// C18: passthrough lengths around the limit in force, histories of parameter updates
-	"C18": {name: "C18", minOps: 3, maxOps: 10, wRecv: 55, wMsg: 35, wDeposit: 0, wQuery: 10, pOrbiter: 97, pFee: 20, pBadPayload: 2,
+	"C18": {name: "C18", minOps: 3, maxOps: 10, wRecv: 50, wMsg: 30, wDeposit: 12, wQuery: 8, pOrbiter: 97, pFee: 20, pBadPayload: 2,
 		pFault: 0, pLie: 0, pWrongSign: 20, pPass: 85, pHuge: 0, pBadDenom: 0, routes: cleanRoutes, msgKinds: []string{"UpdateParams"}, mask: []int{0, 1, 4}, pPlanned: 50},
 	// C07: traffic that is not the orbiter's, every receiver / memo / data / channel, all pause and parameter states
 	"C07": {name: "C07", minOps: 2, maxOps: 7, wRecv: 75, wMsg: 20, wDeposit: 5, wQuery: 0, pOrbiter: 8, pFee: 30, pBadPayload: 10,
@@ -379,6 +379,15 @@ func (g *gen) spoil(f *fwdSpec) string {
 		return "internal-bad-recipient"
 	case 6:
 		if f.kind == "hyp" {
+			if r.Chance(50) {
+				// an existing collateral token, possibly of another denomination than the one transferred
+				var ids []string
+				for _, d := range g.w.Denoms {
+					ids = append(ids, g.w.S.HypTokens[d])
+				}
+				f.token, f.domain = []byte(rng.Pick(r, ids)), 1
+				return "hyp-some-existing-token"
+			}
 			f.token = r.Bytes(32)
 			return "hyp-unknown-token"
 		}
@@ -593,7 +602,7 @@ func (g *gen) genPacket() (world.Packet, pktInfo) {
 	return p, info
 }
 
-var ccPool = map[string][]string{"PROTOCOL_CCTP": {"0", "1", "2", "3", "5", "6", "7"}, "PROTOCOL_HYPERLANE": {"1", "2", "77"},
+var ccPool = map[string][]string{"PROTOCOL_CCTP": {"0", "1", "2", "3", "5", "6", "7", "10", "100"}, "PROTOCOL_HYPERLANE": {"1", "2", "77", "7"},
 	"PROTOCOL_INTERNAL": {"noble"}, "PROTOCOL_IBC": {"channel-0", "channel-1"}}
 
 func (g *gen) hasKind(k string) bool {
@@ -744,7 +753,9 @@ func (g *gen) genMsg() world.Msg {
 	case "UpdateParams":
 		m.Max = rng.Pick(r, []uint32{0, 1, 2, 16, 17, 255, 65536, 4294967295})
 	case "ReplaceDepositForBurn":
-		m.B = [4][]byte{r.Bytes(8 + r.Intn(8)), r.Bytes(4), r.Bytes(32), r.Bytes(32)}
+		// the replaced fields in every length CCTP may or may not like (empty, one byte, an EVM address, 32, 33)
+		ln := func() int { return rng.Pick(r, []int{32, 32, 32, 0, 1, 20, 31, 33}) }
+		m.B = [4][]byte{r.Bytes(8 + r.Intn(8)), r.Bytes(4), r.Bytes(ln()), r.Bytes(ln())}
 	}
 	return m
 }
